@@ -602,11 +602,18 @@ def queue_accounting(r, F):
                                   "overflow / capacity test fires for entries that are no longer there" % (name, X, m, spec["lists"][X][0]), ln=g.blocks[b].term.ln)
                     elif m == "push_back":
                         total += 1
-                        pre = set(wev.get(("add", X), [])) | set(bb for (x2, m2, bb) in ops if x2 == X and m2 != "push_back")
-                        okw = any(g.dominates(p_, b) for p_ in pre) or g.must_pass(b, list(wev.get(("add", X), [])))
-                        pret = set(tags.get(X, [])) | set(bb for (x2, m2, bb) in ops if x2 == X and m2 != "push_back")
-                        okt = any(g.dominates(p_, b) for p_ in pret) or g.must_pass(b, list(tags.get(X, [])))
-                        r.require(okw and okt, g, "%s: link into %s is counted and tagged" % (name, X), "`%s += weight` and tag %s accompany the push_back (or the record was just unlinked from the same queue)" % spec["lists"][X],
+                        # where does the linked record come from? an unlink in this body (then its queue Y is known) or the caller
+                        src = backslice(g, g.blocks[b].term.args[1], "prov", extra_transparent=[r"Option::<T>::unwrap$", r"Clone::clone$"])
+                        from_unlink = [(x2, bb) for (x2, m2, bb) in ops if m2 != "push_back" and any(cb == bb for cb, _ in src.calls)]
+                        if any(x2 == X for x2, _ in from_unlink):
+                            okw = okt = True          # refreshed in place: counter and tag unchanged
+                        else:
+                            fresh = (lambda p_: all(g.dominates(ub, p_) for _, ub in from_unlink)) if from_unlink else (lambda p_: True)
+                            adds = [p_ for p_ in wev.get(("add", X), []) if fresh(p_)]
+                            tgs = [p_ for p_ in tags.get(X, []) if fresh(p_)]
+                            okw = any(g.dominates(p_, b) for p_ in adds) or g.must_pass(b, adds)
+                            okt = any(g.dominates(p_, b) for p_ in tgs) or g.must_pass(b, tgs)
+                        r.require(okw and okt, g, "%s: link into %s is counted and tagged" % (name, X), "`%s += weight` and tag %s accompany the push_back (after the unlink that produced the record), or the record was unlinked from the same queue" % spec["lists"][X],
                                   "%s: a record is linked into `%s` without %s%s: %s" % (name, X, "" if okw else "`%s += weight`" % spec["lists"][X][0], "" if okt else " the tag %s" % spec["lists"][X][1],
                                   "the queue's counter no longer matches its content" if not okw else "`remove` dispatches on the tag and would unlink from the wrong list"), ln=g.blocks[b].term.ln)
     if total < 20:
